@@ -215,6 +215,6 @@ theorem C18_wiring :
 
 /-- Tie (T1): `makeCookie`. -/
 theorem C18_skeleton_makeCookie : Sso.Generated.skel_store_makeCookie =
-    ["call:NewLogEntry", "call:SplitHostPort", "if{", "}", "if{", "call:HasSuffix", "if{", "call:WithRequestHost", "call:WithCookieDomain", "call:Warn", "}", "}", "call:Add", "return"] := by decide
+    ["call:SplitHostPort", "if{", "}", "if{", "call:HasSuffix", "if{", "}", "}", "call:Add", "return"] := by decide
 
 end Sso.Harden
